@@ -30,6 +30,8 @@ class Scheduler(object):
         self.done = [False] * nthreads
         self.current = None
         self.phase = ['-'] * nthreads
+        self.ident2tid = {}
+        self.lock_waits = 0
         self.importing = [0] * nthreads   # depth of module-level code being executed (import lock held: never pre-empt)
         self.switches = 0
         self.want_log = want_log
@@ -280,8 +282,40 @@ class Scheduler(object):
         self.locks[to].release()
         self.locks[frm].acquire()
 
+    # ------------------------------------------------------------------ real locks taken by the code under test
+    def lock_blocked(self):
+        """The calling thread failed to take a lock non-blockingly.  Hand the baton to another runnable thread
+        (deterministically: the next one in cyclic order) and return True once re-scheduled; False if nobody else
+        can run."""
+        import _thread
+        tid = self.ident2tid.get(_thread.get_ident())
+        if tid is None or self.current != tid:
+            return False
+        others = self.runnable_others(tid)
+        if not others:
+            return False
+        self.steps += 1
+        self.lock_waits += 1
+        if self.lock_waits > 200000:
+            return False
+        nxt = [t for t in others if t > tid]
+        to = nxt[0] if nxt else others[0]
+        if self.name == 'explicit':
+            e = self.explicit.get(self.steps)
+            if e is not None and e in others:
+                to = e
+        saved = self.max_switches
+        self.max_switches = 1 << 60        # a blocked thread must be able to yield whatever the cap says
+        try:
+            self.switch(tid, to)
+        finally:
+            self.max_switches = saved
+        return True
+
     # ------------------------------------------------------------------ thread life cycle
     def wait_for_baton(self, tid):
+        import _thread
+        self.ident2tid[_thread.get_ident()] = tid
         self.locks[tid].acquire()
 
     def finish(self, tid):
